@@ -42,14 +42,14 @@ MODELLED_OPS = {"PROTO", "FRAME", "NONE", "NEWTRUE", "NEWFALSE", "BININT", "BINI
 
 
 # ------------------------------------------------------------------ specs
-def make_specs(rng, n, cap, depths):
+def make_specs(rng, n, cap, depths, full=False):
     specs = []
     for i in range(n):
         lang = LANGS[i % 4]
         switches = tuple(int(rng.random() < 0.25) for _ in range(4))
         specs.append({"lang": lang, "seed": rng.randrange(1, 1 << 30), "switches": switches,
                       "max_depth": rng.choice(depths), "stages": list(STAGES), "export": False,
-                      "plugins": [PLUGIN], "cap": cap})
+                      "plugins": [PLUGIN], "cap": cap, "c13_full": full})
     return specs
 
 
@@ -173,7 +173,8 @@ def corpus_items():
         from collections import OrderedDict
         od = OrderedDict((str(i), i) for i in range(1001))
         return [xs, d, od, list(range(1000)), {i: i for i in range(1001)}, {"single": 1}, [7],
-                OrderedDict(), OrderedDict(a=1), (1, 2, 3, 4, 5), -5, 2 ** 70, 1.5, "x" * 300, set(), ()]
+                OrderedDict(), OrderedDict(a=1), (1, 2, 3, 4, 5), -5, 2 ** 70, 1.5, "x" * 300, set(), (),
+                set(range(1000)), {"a"}, {3, 1, 2}, frozenset([1, 2, 3]), frozenset(), set(range(1001))]
     items.append(("batches: containers of 1000 / 1001 / 2000 elements, OrderedDict, long tuple, big int, float",
                   big_containers, "ok"))
 
@@ -185,6 +186,14 @@ def corpus_items():
         l.append(t4)
         return [t, t4, l]
     items.append(("tuples reachable from their own elements (POP / POP_MARK repair)", tuple_cycle, "ok"))
+
+    def tuple4_cycle_root():
+        l = []
+        t4 = (l, 1, 2, 3)
+        l.append(t4)
+        fz_holder = []
+        return [t4, fz_holder]
+    items.append(("a 4-tuple root inside its own list (POP_MARK repair)", tuple4_cycle_root, "ok"))
 
     def tuple_cycle_root():
         l = []
@@ -222,39 +231,42 @@ def run_corpus(run, found, model_broken):
 def _run_corpus(run, found, model_broken):
     import c13_plugin
     import export_heap as eh
+    cases, rq = [], []
     for name, build, expect in corpus_items():
-        where = {"corpus": name}
         obj = build()
-        run.count({"corpus": name})
-        run.tally("corpus", expect)
         data = pickle.dumps(obj)
         hp = eh.export_heap(obj)
         ops = eh.ops_of_pickle(data, run.cov["opcodes_seen"])
-        rq = [{"op": "pickle.dump", "heap": hp, "expect": ops}, {"op": "pickle.nokeycycle", "heap": hp},
-              {"op": "pickle.unready", "ops": ops}, {"op": "pickle.iso", "a": {"ops": ops}, "b": hp},
-              {"op": "pickle.canon", "heap": hp}, {"op": "pickle.load", "ops": ops}]
-        ans = common.run_driver(rq)
-        for a in ans:
-            if "error" in a:
-                raise common.HarnessError("driver (%s): %s" % (name, a["error"]))
-        r = [a["r"] for a in ans]
-        run.cov["traces_validated_against_impl"] += 1
-        if not (isinstance(r[0], dict) and r[0].get("equal")):
-            model_broken.append((where, {"leg": "dump-opcodes", "detail": r[0]}))
-        if r[3] is not True:
-            model_broken.append((where, {"leg": "load-iso-original", "detail": r[3]}))
-        if r[4] != r[5]:
-            model_broken.append((where, {"leg": "canonical-numbering-of-load-differs", "detail": "canon(heap) != load(ops)"}))
         try:
-            q = pickle.loads(data)
-            raised = None
+            q, raised = pickle.loads(data), None
         except Exception as e:  # noqa: BLE001
             q, raised = None, type(e).__name__
-        rec = {"nokeycycle": r[1], "unready": r[2], "real_load": raised or "ok"}
+        hq = eh.export_heap(q) if raised is None else hp
+        cases.append((name, expect, obj, data, hp, ops, q, raised, hq, len(rq)))
+        rq += [{"op": "pickle.check", "p": hp, "q": hq, "ops": ops}, {"op": "pickle.canon", "heap": hp},
+               {"op": "pickle.load", "ops": ops}]
+    ans = common.run_driver(rq)
+    for a in ans:
+        if "error" in a:
+            raise common.HarnessError("driver (corpus): %s" % a["error"])
+    for (name, expect, obj, data, hp, ops, q, raised, hq, off) in cases:
+        where = {"corpus": name}
+        run.count({"corpus": name})
+        run.tally("corpus", expect)
+        run.cov["traces_validated_against_impl"] += 1
+        r, canon_p, loaded = ans[off]["r"], ans[off + 1]["r"], ans[off + 2]["r"]
+        if not (isinstance(r["dump"], dict) and r["dump"].get("equal")):
+            model_broken.append((where, {"leg": "dump-opcodes", "detail": r["dump"]}))
+        if r["iso_load_p"] is not True:
+            model_broken.append((where, {"leg": "load-iso-original", "detail": r["iso_load_p"]}))
+        if canon_p != loaded:
+            model_broken.append((where, {"leg": "canonical-numbering-of-load-differs", "detail": "canon(heap) != load(ops)"}))
+        rec = {"nokeycycle": r["nokeycycle"], "unready": r["unready"], "real_load": raised or "ok"}
         run.cov["corpus_results"][name[:60]] = rec
         if expect == "load-raises":
             # the witnesses: model says the proviso fails and a key is hashed unbuilt; the real loads must raise
-            if r[1] is not False or not (isinstance(r[2], int) and r[2] >= 1) or raised != "AttributeError":
+            if r["nokeycycle"] is not False or not (isinstance(r["unready"], int) and r["unready"] >= 1) \
+                    or raised != "AttributeError":
                 run.violation(dict(where, kind="broken-correspondence", detail=rec,
                                    note="the witness of keys_ready_counterexample behaves differently on the real "
                                         "code: expected noKeyCycle = false, unready >= 1, pickle.loads raising "
@@ -265,26 +277,23 @@ def _run_corpus(run, found, model_broken):
             run.violation(dict(where, kind="failing-input", detail=rec, note="pickle.loads raises on a corpus graph"),
                           signature="corpus-load-raises:" + raised)
             continue
-        if r[1] is not True or r[2] != 0:
+        if r["nokeycycle"] is not True or r["unready"] != 0:
             model_broken.append((where, {"leg": "nokeycycle/unready", "detail": rec}))
-        hq = eh.export_heap(q)
         py = eh.iso(hp, hq)
-        a2 = common.run_driver([{"op": "pickle.iso", "a": hp, "b": hq}, {"op": "pickle.iso", "a": {"ops": ops}, "b": hq}])
-        if py is not None or a2[0].get("r") is not True:
+        if py is not None:
             # judged by the Python reference alone: the real round trip changed the graph
-            if py is not None:
-                run.violation(dict(where, kind="failing-input", detail=py,
-                                   note="exported graph of pickle.loads(pickle.dumps(x)) is not isomorphic to x's"),
-                              signature="corpus-graph-differs")
-            else:
-                model_broken.append((where, {"leg": "heap-p-iso-heap-q", "detail": {"lean": a2[0].get("r"), "python": py}}))
-        if a2[1].get("r") is not True:
-            model_broken.append((where, {"leg": "load-iso-real-q", "detail": a2[1].get("r")}))
+            run.violation(dict(where, kind="failing-input", detail=py,
+                               note="exported graph of pickle.loads(pickle.dumps(x)) is not isomorphic to x's"),
+                          signature="corpus-graph-differs")
+        elif r["iso_p_q"] is not True:
+            model_broken.append((where, {"leg": "heap-p-iso-heap-q", "detail": {"lean": r["iso_p_q"], "python": py}}))
+        if r["iso_load_q"] is not True:
+            model_broken.append((where, {"leg": "load-iso-real-q", "detail": r["iso_load_q"]}))
         if pickle.dumps(q) != data:
             run.violation(dict(where, kind="failing-input", note="pickle.dumps(q) differs from pickle.dumps(p)"),
                           signature="corpus-redump-differs")
         if hasattr(obj, "context") and hasattr(obj, "language"):
-            c13 = c13_plugin.battery(obj, obj.language)
+            c13 = c13_plugin.battery(obj, obj.language, legs=("A",))
             judge(run, where, c13, found, model_broken)
         if name.startswith("identity-hashed node"):
             if q.cache.get(q) != 1 or q.cache["self"] is not q:
@@ -391,9 +400,9 @@ def check(run):
     quick = run.tier == "quick"
     found, model_broken = set(), []
     run_corpus(run, found, model_broken)
-    nprog, cap, budget = (24, 60, 100) if quick else (600, 150, 1500)
-    depths = [3, 3, 4, 4, 5] if quick else [4, 5, 5, 6, 6, 7]
-    specs = make_specs(run.rng, nprog, cap, depths)
+    nprog, cap, budget = (16, 60, 100) if quick else (600, 150, 1500)
+    depths = [3, 3, 3, 4, 4] if quick else [4, 5, 5, 6, 6, 7]
+    specs = make_specs(run.rng, nprog, cap, depths, full=not quick)
     direct_bad = run_stream(run, specs, found, model_broken, "pipeline stream", budget)
     run.cov["programs"] = nprog
     run.cov["stream_budget_s"] = budget
@@ -424,7 +433,8 @@ def replay(run, rp):
         run.cov["rule"] = "replay of the hand-made corpus"
     else:
         spec = {"lang": rp["lang"], "seed": rp["seed"], "switches": tuple(rp["switches"]),
-                "max_depth": rp["max_depth"], "stages": list(STAGES), "export": False, "plugins": [PLUGIN], "cap": 600}
+                "max_depth": rp["max_depth"], "stages": list(STAGES), "export": False, "plugins": [PLUGIN], "cap": 600,
+                "c13_full": True}
         run_stream(run, [spec], found, model_broken, "replay")
         run.cov["rule"] = "replay of one generator run (all stages, all legs)"
     finish_cov(run)
